@@ -3,7 +3,7 @@ import SparseSpace.Drive.Util
 import Std.Data.HashMap
 /-! Line-protocol driver for the `StandardCombi` model (C02).
 
-    cfg <dim> <lmin> <lmax> <bd:0|1> <a1,a2,..> <b1,b2,..>   → ok | assert
+    cfg <dim> <lmin> <lmax> <bd:0|1 or per dimension 1,0,..> <a1,a2,..> <b1,b2,..>   → ok | assert
     scheme                     → [l1,l2]:c;[..]:c;...   (in the order of the code)
     points <l1,l2,..>          → x1,x2|x1,x2|...        (in the order of the code)
     weights <l1,l2,..>         → w|w|...
@@ -27,11 +27,19 @@ structure St where
   dim : Nat
   lmin : Int
   lmax : Int
-  bd : Bool
+  bd : Flags
   a : List Rat
   b : List Rat
   c : List (LV × Int)
   tab : Std.HashMap (List (Int × Nat)) Rat
+
+/-- one flag for all dimensions (`1` / `0`) or one flag per dimension (`1,0,..`) -/
+def flagsOf (l : List Int) : Flags :=
+  match l with
+  | [v] => Flags.const (v == 1)
+  | _ => fun d => match l[d]? with
+    | some v => v == 1
+    | none => true
 
 def key (p : List Rat) : List (Int × Nat) := p.map fun r => (r.num, r.den)
 
@@ -76,11 +84,12 @@ def parseLv? (s : St) (w : String) : Option LV :=
 def step (s : Option St) (line : String) : Option St × String :=
   match (line.trimAscii.toString.splitOn " ").filter (· ≠ "") with
   | ["cfg", d, lmin, lmax, bd, a, b] =>
-    match parseNat? d, parseInt? lmin, parseInt? lmax, parseNat? bd, parseRatVec? a, parseRatVec? b with
+    match parseNat? d, parseInt? lmin, parseInt? lmax, parseVec? bd, parseRatVec? a, parseRatVec? b with
     | some d, some lmin, some lmax, some bd, some a, some b =>
-      if d ≥ 1 && lmin ≥ 1 && bd ≤ 1 && a.length == d && b.length == d
+      if d ≥ 1 && lmin ≥ 1 && bd.all (fun v => v == 0 || v == 1) && (bd.length == 1 || bd.length == d)
+          && a.length == d && b.length == d
           && (List.zipWith (fun x y => decide (x < y)) a b).all id then
-        (some { dim := d, lmin, lmax, bd := bd == 1, a, b, c := stdScheme d lmin lmax, tab := {} }, "ok")
+        (some { dim := d, lmin, lmax, bd := flagsOf bd, a, b, c := stdScheme d lmin lmax, tab := {} }, "ok")
       else (s, "assert")
     | _, _, _, _, _, _ => (s, "bad-op")
   | ["scheme"] =>
@@ -109,7 +118,7 @@ def step (s : Option St) (line : String) : Option St × String :=
     match s with
     | some st => match parseLv? st v with
       | some lv =>
-        match lv.mapM (fun l => levelNumPoints? false l.toNat st.bd) with
+        match lv.zipIdx.mapM (fun (l, d) => levelNumPoints? false l.toNat (st.bd d)) with
         | some ns => (s, ",".intercalate (ns.map toString) ++ "=" ++ toString (ns.foldl (· * ·) 1))
         | none => (s, "error")
       | none => (s, "bad-op")
